@@ -77,6 +77,15 @@ def run(R):
                 if s.kind == 'expr' and isinstance(s.expr, ast.Subscript) and isinstance(s.expr.slice, ast.Constant) and s.expr.slice.value == 0 \
                         and ast.unparse(s.expr.value).endswith('parse_tl_num(data)'):
                     continue        # `parse_tl_num(data)[0]`: the same first element
+                # the first element of parse_tl_num(<the fragment>), however the fragment is spelled at that point
+                call_ = s.expr if s.kind == 'unpack' and s.extra == 0 else (s.expr.value if s.kind == 'expr' and isinstance(s.expr, ast.Subscript)
+                                                                           and isinstance(s.expr.slice, ast.Constant) and s.expr.slice.value == 0 else None)
+                if isinstance(call_, ast.Call) and ast.unparse(call_.func).endswith('parse_tl_num') and call_.args:
+                    inner = s.ctx.sources(s.node, call_.args[0]) if isinstance(call_.args[0], ast.Name) else None
+                    from ..flow import Src
+                    cand = inner if inner is not None else [Src('expr', call_.args[0], s.ctx, s.node)]
+                    if cand and all(frag_pred(i_) for i_ in cand):
+                        continue
                 probs.append((f'the dispatch type is {s.text()}', t.ast))
         # one shared dispatch: exactly one non-Nack parse_interest and one parse_data call
         cnt = {}
